@@ -11,7 +11,6 @@ CONSTANTS
   OrphanMetaKept = FALSE
   CorruptIgnoresMeta = FALSE
   MayRelease = FALSE
-  GraceTimer = "oracle"
+  GraceTimer = "observer"
 INVARIANTS CSafe
-PROPERTIES ClientsAttach
 CHECK_DEADLOCK FALSE
